@@ -216,8 +216,14 @@ def w_program(ctx, rng, i):
             r, rm = a + b, am + bm
         elif op == "addlist":
             vals = [int(v) for v in rng.integers(0, 100, int(rng.integers(0, 4)))]
-            arg = vals if rng.random() < 0.5 else tuple(vals)
+            arg = list(vals) if rng.random() < 0.6 else tuple(vals)
             r, rm = a + arg, am + [("V", v) for v in vals]
+            if isinstance(arg, list):
+                # what an ordinary list + would have copied: later edits of the operand do not show through
+                arg.append(-1)
+                if len(arg) > 1:
+                    arg[0] = -2
+                    arg.pop()
         elif op == "raddchain":
             b, bm, _ = pool[rng.integers(0, len(pool))]
             r, rm = (a + b).copy() + a, am + bm + am
